@@ -306,7 +306,7 @@ def _good_value(dtype):
 
 
 def normal_form(spec):
-    """Copy of a spec with temporal values as the API stores them (no sub-second part, naive)."""
+    """Copy of a spec with values as the API stores them (temporal: no sub-second part, naive; int: no booleans)."""
     import copy
     spec = copy.deepcopy(spec)
 
@@ -318,6 +318,8 @@ def normal_form(spec):
     def rec(n):
         if n.get("k") == "prop":
             n["values"] = [fix(v) for v in n["values"]]
+            if n.get("dtype") == "int":        # booleans handed to an int Property are stored as 1 / 0
+                n["values"] = [int(v) if isinstance(v, bool) else v for v in n["values"]]
         for c in n.get("sections", []):
             rec(c)
         for c in n.get("properties", []):
